@@ -168,7 +168,10 @@ fn views_only<B: crate::real::RealBook>(h: &History) -> Result<u64, Failure> {
         }
         let orders = b.orders();
         let exp = recompute_views(&orders, h.cfg.tick, B::LEVELS);
-        let got = b.views();
+        let got = match crate::util::catch(|| b.views()) {
+            Ok(v) => v,
+            Err(p) => return Err(Failure { op_index: i, monitor: "abort".into(), kind: "panic_in_getter".into(), detail: format!("after {:?} with {} levels (tick {}): {}", op, B::LEVELS, h.cfg.tick, p) }),
+        };
         states += 1;
         if exp != got {
             return Err(Failure { op_index: i, monitor: "views".into(), kind: "view_differs_from_orders".into(), detail: format!("after {:?} with {} levels: expected {:?} observed {:?}", op, B::LEVELS, exp, got) });
